@@ -73,8 +73,10 @@ class Enc:
             elif k == "demote":
                 if ev["ok"]:
                     add(i, f"EDemote {p}")
+                elif ev.get("error") == "AssertionError":
+                    add(i, f"EDemote {cN(999999)}")       # demote by a process that is not the submitter: never allowed
                 else:
-                    add(i, f"EDemote {cN(999999)}")       # a failed demote (assertion) is never allowed
+                    add(i, f"EKill [{p}]")                # the write failed: the role is never released (process dies)
             elif k == "round_begin":
                 add(i, f"ERound {p}")
             elif k == "squeue":
@@ -116,8 +118,10 @@ class Enc:
             elif k == "mark_complete":
                 if ev["ok"]:
                     add(i, f"EMarkComplete {p}")
+                elif ev.get("error") == "AssertionError":
+                    add(i, f"EMarkComplete {cN(999999)}")   # completing a complete submission: never allowed
                 else:
-                    add(i, f"EMarkComplete {cN(999999)}")
+                    add(i, f"EKill [{p}]")                  # the write failed; the process dies holding the role
             elif k == "mark_canceled":
                 add(i, f"EMarkCanceled {p}")
             elif k == "scancel":
@@ -388,7 +392,7 @@ def py_monitors(sc, trace, final=None):
                     probs.append(("C05", "complete-before-summary", "completion flag set before the results summary was written", i))
                 if (sc.get("hooks") or {}).get("teardown") and teardown_since_summary != 1:
                     probs.append(("C16", "teardown-count", f"teardown ran {teardown_since_summary} times before completion", i))
-            else:
+            elif ev.get("error") == "AssertionError":
                 probs.append(("C05", "completed-twice", "mark_complete on a complete submission", i))
         elif k == "results_summary":
             summary_seen = True
@@ -440,3 +444,113 @@ def py_monitors(sc, trace, final=None):
             if not bad:
                 probs.append(("C04", "canceled-without-failed-blocker", f"job {n} canceled by a submitter but no blocker failed", i))
     return probs
+
+
+# ---------------------------------------------------------------------------------------------
+# running one scenario under a plan (user commands, faults) in the virtual cluster
+# ---------------------------------------------------------------------------------------------
+def _alive(vc):
+    return [a for a in vc.actors if not a.done and not a.killed]
+
+
+def apply_action(vc, act, rng):
+    """-> label of what was done (or None)"""
+    do = act["do"]
+    if do == "cancel":
+        vc.cancel(complete=act.get("complete", True))
+        return "cancel"
+    if do == "try":
+        vc.try_submit(host=act.get("host", "login1"))
+        return "try"
+    if do == "resubmit":
+        vc.resubmit(**act.get("flags", {}))
+        return "resubmit"
+    if do == "kill":
+        sel = act.get("who", "any")
+        cands = _alive(vc)
+        if sel == "node":
+            cands = [a for a in cands if a.stack[0].kind == "node"]
+        elif sel == "submitter":
+            cands = [a for a in cands if getattr(a.proc, "promoted", False) or a.stack[0].kind in ("login", "user")]
+        elif sel == "holder":
+            cands = [a for a in cands if any(getattr(p, "promoted", False) for p in a.stack)]
+        if not cands:
+            return None
+        a = cands[rng.randrange(len(cands))]
+        vc.kill_actor(a)
+        if a.stack[0].kind == "node" and a.stack[0].batch in vc.hpc:
+            vc.hpc[a.stack[0].batch]["state"] = "GONE"
+            vc.trace.append({"k": "batch_end", "p": 0, "id": a.stack[0].batch, "why": "killed"})
+        return "kill:" + a.label
+    if do == "timeout":
+        ids = vc.active_ids()
+        if not ids:
+            return None
+        i = ids[rng.randrange(len(ids))]
+        vc.kill_batch(i, "timeout")
+        vc.hpc[i]["state"] = "GONE"
+        vc.trace.append({"k": "batch_end", "p": 0, "id": i, "why": "timeout"})
+        return "timeout:" + i
+    if do == "squeuefail":
+        vc.squeue_failures += 1
+        return "squeuefail"
+    if do == "locktimeout":
+        cands = [a for a in _alive(vc) if a.waiting_lock]
+        if not cands:
+            return None
+        vc.pending_lock_timeout.add(cands[0].proc.pid)
+        return "locktimeout:" + cands[0].label
+    raise ValueError(do)
+
+
+def run_plan(sc, seed, plan=None):
+    """-> dict(trace, final, status, stuck, excs, recoveries, choices, applied)"""
+    import random as _r
+    from harness import vcluster
+    plan = plan or {}
+    rng = _r.Random(seed * 7919 + 13)
+    sc = dict(sc)
+    if plan.get("sbatch_fail"):
+        sc["sbatch_fail"] = plan["sbatch_fail"]
+    faults = {}
+    if plan.get("write_error"):
+        faults["write_error"] = tuple(plan["write_error"])
+    vc = vcluster.VirtualCluster(sc, seed=seed, strategy=plan.get("strategy", "random"), schedule=plan.get("schedule"),
+                                 break_stale=bool(plan.get("break_stale")), faults=faults)
+    applied = []
+    try:
+        vc.submit(local=bool(plan.get("local")))
+        # user commands and faults only make sense once the submission exists on disk
+        vc.run(until=lambda: vc.trace and any(e["k"] == "create" for e in vc.trace[-12:]))
+        for act in sorted(plan.get("actions", []), key=lambda a: a["at"]):
+            vc.run(until=lambda: vc.steps >= act["at"])
+            lab = apply_action(vc, act, rng)
+            applied.append(lab)
+            vc.trace.append({"k": "action", "p": 0, "do": act["do"], "label": lab})
+        vc.run()
+        rec = 0
+        idle = 0
+        while rec < plan.get("recover", 14):
+            st = vc.status()
+            if st.get("complete") or "error" in st:
+                break
+            if _alive(vc):
+                break
+            vc.trace.append({"k": "quiescent", "p": 0, "snapshot": st, "active": vc.active_ids()})
+            n0 = len(vc.trace)
+            vc.try_submit()
+            vc.run()
+            rec += 1
+            # a recovery round that changes nothing will not change anything next time either
+            if not any(e["k"] in ("sbatch", "mark_complete", "update_status") for e in vc.trace[n0:]):
+                idle += 1
+                if idle >= 2:
+                    break
+            else:
+                idle = 0
+        return {"trace": vc.trace, "final": vc.final_results(), "status": vc.status(), "stuck": [a.label for a in _alive(vc)],
+                "excs": [(a.label, type(a.exc).__name__, str(a.exc)[:200]) for a in vc.actors if a.exc is not None],
+                "recoveries": rec, "choices": list(vc.choices_made), "applied": applied, "fired": list(vc.fired),
+                "launches": list(vc.launches)}
+    finally:
+        vc.close()
